@@ -338,6 +338,11 @@ func cmdCheck(args []string) int {
 	// property that are not under contract (labelled bounded in the evidence), supply failing
 	// inputs for failed obligations, and cross-check the engine.
 	conf = runConformance(*repo, *verif, *prop, *tier, seed)
+	// a replay that could not be run (does not compile against the tree, panicked before its
+	// statistics) decides nothing: say so instead of passing silently
+	for _, e := range conf.errs {
+		fmt.Printf("REPLAY-NOT-RUN: %s\n", truncate(strings.ReplaceAll(e, "\n", " | "), 600))
+	}
 	knownSeen := map[string]bool{}
 	nKnownObl := 0
 	replayDir := filepath.Join(*verif, "replays")
@@ -371,6 +376,12 @@ func cmdCheck(args []string) int {
 			// property violation in itself: undecided, the other obligations and the bounded
 			// replays decide.
 			undecided = append(undecided, fmt.Sprintf("%s: %s (the function changes a ghost log that its contract does not list; the contract is incomplete for this code)", o.Name, o.Result))
+			continue
+		}
+		if strings.Contains(o.Name, "/safety/assert-ext") {
+			// an unchecked type assertion on what a library function without contract returned: no
+			// contract in reach can decide it and it says nothing about the property
+			undecided = append(undecided, fmt.Sprintf("%s: %s (type assertion on the unconstrained result of a library call; not decidable by any contract in reach)", o.Name, o.Result))
 			continue
 		}
 		kf := matchKnown(known.Findings, *prop, o.Name)
